@@ -2,7 +2,7 @@
    values and ANY strictly increasing tables of the right lengths; the
    regenerated tables qualify. *)
 From Coq Require Import List NArith ZArith Bool Lia ZifyBool ZifyNat ZifyN Sorted.
-From SNT Require Import Base.Outcome Encoder.Encode Encoder.Color256 Encoder.EncodeC20 Gen.TabColor.
+From SNT Require Import Base.Outcome Encoder.Encode Encoder.VT Encoder.Denote Encoder.Color256 Encoder.EncodeC20 Gen.TabColor.
 Import ListNotations.
 Local Open Scope Z_scope.
 Ltac Zify.zify_post_hook ::= Z.div_mod_to_equations.
@@ -403,15 +403,54 @@ Proof. intros H. rewrite best_d2_tab_eq. apply best_d2_spec, H. Qed.
 
 (* ---------- statements restricted to what the property is about: opaque colours ---------- *)
 Theorem pal256_exact_optimal_opaque (c : rgba) :
-  ca c = 255%N ->
+  rgba_ok c = true -> ca c = 255%N ->
   (16 <= pal256_exact c < 256)%N /\
   forall m, (16 <= m < 256)%N ->
     d2 (lin_vec c) (entry cube_z greys_z (pal256_exact c)) <= d2 (lin_vec c) (entry cube_z greys_z m).
-Proof. intros _. apply pal256_exact_optimal. Qed.
+Proof. intros _ _. apply pal256_exact_optimal. Qed.
 
 Theorem pal256_true_palette_upto_eps_opaque (c : rgba) :
-  ca c = 255%N ->
+  rgba_ok c = true -> ca c = 255%N ->
   forall m, (16 <= m < 256)%N ->
     d2 (lin_vec c) (entry xcube_z xgreys_z (pal256_exact c))
     <= d2 (lin_vec c) (entry xcube_z xgreys_z m) + eps_sq_bound.
-Proof. intros _. apply pal256_true_palette_upto_eps. Qed.
+Proof. intros _ _. apply pal256_true_palette_upto_eps. Qed.
+
+(* ---------- the tolerance predicate on arbitrary (non-square) arguments ---------- *)
+(* sqrt_le_plus xx yy e stands for  sqrt xx <= sqrt yy + e.  Without real numbers: it is implied by
+   that inequality for any integer upper bound a of sqrt xx and lower bound b of sqrt yy, and implies
+   it for any integer lower bound a of sqrt xx and upper bound b of sqrt yy (the integers here are
+   multiples of 1/color_den = 7.5e-15, so the two readings differ by nothing observable). *)
+Theorem sqrt_le_plus_sound xx yy e a b :
+  0 <= a -> 0 <= b -> 0 <= e -> a * a <= xx -> yy <= b * b ->
+  sqrt_le_plus xx yy e = true -> a <= b + e.
+Proof.
+  intros Ha Hb He Hx Hy H. unfold sqrt_le_plus in H. apply orb_prop in H.
+  destruct (Z.le_gt_cases a (b + e)) as [Hle|Hgt]; [exact Hle|exfalso].
+  assert (Hl : 2 * e * b < xx - yy - e * e) by nia.
+  destruct H as [H|H]; apply Z.leb_le in H; [nia|].
+  assert (0 <= 2 * e * b) by nia.
+  assert ((2 * e * b) * (2 * e * b) < (xx - yy - e * e) * (xx - yy - e * e)) by nia.
+  assert (4 * e * e * yy <= (2 * e * b) * (2 * e * b)) by nia.
+  nia.
+Qed.
+
+Theorem sqrt_le_plus_complete xx yy e a b :
+  0 <= a -> 0 <= b -> 0 <= e -> 0 <= yy -> xx <= a * a -> b * b <= yy -> a <= b + e ->
+  sqrt_le_plus xx yy e = true.
+Proof.
+  intros Ha Hb He Hyy Hx Hy H. unfold sqrt_le_plus. apply orb_true_iff.
+  destruct (Z.leb_spec (xx - yy - e * e) 0) as [H0|H0]; [left; reflexivity|right].
+  apply Z.leb_le.
+  assert (Hu : xx - yy - e * e <= 2 * e * b) by nia.
+  assert ((xx - yy - e * e) * (xx - yy - e * e) <= (2 * e * b) * (2 * e * b)) by nia.
+  assert ((2 * e * b) * (2 * e * b) <= 4 * e * e * yy) by nia.
+  nia.
+Qed.
+
+(* d2 is a sum of squares: non-negative *)
+Lemma d2_nonneg v e : 0 <= d2 v e.
+Proof.
+  destruct v as [[a b] c], e as [[x y] z]. unfold d2.
+  pose proof (Z.square_nonneg (a - x)). pose proof (Z.square_nonneg (b - y)). pose proof (Z.square_nonneg (c - z)). lia.
+Qed.
